@@ -1219,10 +1219,98 @@ func runBatch(r *hx.Run, cs []cfg, par int) {
 	}
 	wg.Wait()
 	for i := range res {
-		if ran[i] {
-			emit(r, res[i].c.seed, res[i])
+		if !ran[i] {
+			continue
+		}
+		// the first failing stress case of each kind of failure is shrunk, and the smallest failing configuration
+		// is emitted before it: it becomes the failing input of the replay
+		if _, end := oracle(res[i].ev); end != "" && res[i].c.kind == "stress" && !shrunk[end] && len(shrunk) < 3 {
+			shrunk[end] = true
+			if small, ok := shrink(res[i].c, end); ok {
+				r.Count("shrunk-failing-case")
+				emit(r, small.c.seed^0x9e3779b97f4a7c15, small)
+			}
+		}
+		emit(r, res[i].c.seed, res[i])
+	}
+}
+
+var shrunk = map[string]bool{}
+
+// shrink looks for a smaller stress configuration that still fails the same oracle: fewer operations, producers,
+// objects, Stop callers, no Flush, no hook yields, plain write mode.  A candidate counts when one of up to 20 runs
+// fails the same way; at most ~25 s are spent.
+func shrink(c cfg, want string) (result, bool) {
+	deadline := time.Now().Add(25 * time.Second)
+	best, found := result{c: c}, false
+	try := func(cand cfg) bool {
+		for i := 0; i < 20 && time.Now().Before(deadline); i++ {
+			ev := run(cand)
+			if _, end := oracle(ev); end == want {
+				best, found = result{cand, ev}, true
+
+				return true
+			}
+		}
+
+		return false
+	}
+	for progress := true; progress && time.Now().Before(deadline); {
+		progress = false
+		b := best.c
+		var cands []cfg
+		if b.n > 1 {
+			x := b
+			x.n = b.n / 2
+			x.stop = min(b.stop, x.p*x.n)
+			cands = append(cands, x)
+		}
+		if b.p > 1 {
+			x := b
+			x.p--
+			x.stop = min(b.stop, x.p*x.n)
+			cands = append(cands, x)
+		}
+		if b.o > 1 {
+			x := b
+			x.o--
+			cands = append(cands, x)
+		}
+		if b.ns > 1 {
+			x := b
+			x.ns--
+			cands = append(cands, x)
+		}
+		if b.fl > 0 {
+			x := b
+			x.fl = 0
+			cands = append(cands, x)
+		}
+		if b.hy > 0 {
+			x := b
+			x.hy = 0
+			cands = append(cands, x)
+		}
+		if b.dm > 0 {
+			x := b
+			x.dm = 0
+			cands = append(cands, x)
+		}
+		if b.stop > 0 {
+			x := b
+			x.stop = b.stop / 2
+			cands = append(cands, x)
+		}
+		for _, cand := range cands {
+			if try(cand) {
+				progress = true
+
+				break
+			}
 		}
 	}
+
+	return best, found
 }
 
 func b2i(b bool) int {
